@@ -18,6 +18,12 @@ Theorem c18_diff : c18_diff_stmt.                           Proof. exact c18_dif
 Theorem c18_nodup : c18_nodup_stmt.                         Proof. exact c18_nodup_proof. Qed.
 Theorem c18_despawn : c18_despawn_stmt.                     Proof. exact c18_despawn_proof. Qed.
 
+(* spawn_at keeps the preconditions too, and the entity that answers to the handle afterwards is reported as added *)
+Theorem c18_spawn_at : c18_spawn_at_stmt.                   Proof. exact c18_spawn_at_proof. Qed.
+
+(* every mutation that keeps live entities live (spawn, insert, remove, exchange, batches) keeps them as well *)
+Theorem c18_frame : c18_frame_stmt.                         Proof. exact c18_frame_proof. Qed.
+
 (* non-vacuity: overwrite-with-equal, change, remove-then-re-add, despawn with id reuse; reads in the
    order removed, changed (twice), added *)
 Example c18_nonvacuous :
@@ -25,5 +31,12 @@ Example c18_nonvacuous :
   = [4294967296; 4294967297; 4294967298;  0; 0; 0; 0; 0; 8589934594;  0;  1; 4294967297; 2; 9;  0;  1; 8589934594; 7].
 Proof. vm_compute. reflexivity. Qed.
 
+(* id 0 is freed, reused under generation 2 and tracked; spawn_at on the dead first handle evicts that holder; a column
+   batch of two rows takes the freed id 1 and a fresh one: all three are reported as added, nothing as changed or removed *)
+Example c18_nonvacuous_spawn_at :
+  run_tracker [1; 0; 1; 4; 5; 0; 1; 8; 6; 0;   8; 0; 2; 5; 1; 7; 2; 1;   6; 3; 0; 255; 1; 255; 2; 255]
+  = [4294967296; 4294967297; 0; 8589934592;  0; 0; 8589934593; 4294967298;  3; 4294967296; 2; 4294967298; 3; 8589934593; 1;  0;  0].
+Proof. vm_compute. reflexivity. Qed.
+
 Print Assumptions c18_sets. Print Assumptions c18_track. Print Assumptions c18_script_irrelevant.
-Print Assumptions c18_diff. Print Assumptions c18_nodup. Print Assumptions c18_despawn.
+Print Assumptions c18_diff. Print Assumptions c18_nodup. Print Assumptions c18_despawn. Print Assumptions c18_spawn_at. Print Assumptions c18_frame.
